@@ -289,6 +289,20 @@ def load_src():
 FIXTURES_SRC = os.path.join(VERIF, "engines", "fixtures", "src", "lib.rs")
 
 
+def prune_target(name, limit_gb=4.0):
+    """The doc-test / corpus crates are regenerated under a new path for every analysed tree, so cargo's output for them only grows: wipe the
+    target directory when it exceeds the limit (it is a pure cache; the next build is a cold one)."""
+    d = os.path.join(WORK, "target", name)
+    if not os.path.isdir(d):
+        return
+    try:
+        out = subprocess.run(["du", "-sk", d], capture_output=True, text=True).stdout.split()
+        if out and int(out[0]) > limit_gb * 1024 * 1024:
+            shutil.rmtree(d, ignore_errors=True)
+    except Exception:
+        pass
+
+
 def ensure_fixture_facts(scale_info_features=("derive",)):
     """Type-check the derive corpus (engines/fixtures) against REPO through the driver and parse it with
     srcfacts.  Returns (mir json path, src json path)."""
@@ -302,6 +316,7 @@ def ensure_fixture_facts(scale_info_features=("derive",)):
     try:
         if os.path.exists(mirp) and os.path.exists(srcp):
             return mirp, srcp
+        prune_target("fixtures")
         os.makedirs(out, exist_ok=True)
         d = os.path.join(WORK, "fixtures", tree_hash()[:12] + "-" + tag)
         os.makedirs(os.path.join(d, "src"), exist_ok=True)
